@@ -53,7 +53,7 @@ def compare(prog, dkind, ctx, ref: interp.Outcome, real: harness.RealOutcome) ->
             return ("wrong-exception-class", f"reference {ref.error} at node {ref.index}; run raised {real.error}: {real.exc!r}")
         if ref.status == "fail" and ref.index != real.index:
             return ("wrong-failing-node", f"reference fails at node {ref.index} ({ref.error}); run failed at node {real.index}")
-        if ref.error in ("ValueError", "RuntimeError"):
+        if ref.error in ("ValueError", "RuntimeError") and ref.reason == "deliberate":
             from verif_lib.components import EMPTY_ERROR, THE_ERROR
 
             if real.exc is not (THE_ERROR if ref.error == "ValueError" else EMPTY_ERROR):
@@ -73,6 +73,13 @@ def run_case(prog, dkind, ctx, pipe=None, scratch=None):
         pipe = build_pipeline(prog)
     real = harness.run_pipeline(pipe, gen.make_data(dkind), ctx, scratch)
     return ref, real, compare(prog, dkind, ctx, ref, real)
+
+
+def value_menu() -> Dict[str, Any]:
+    import numpy as np
+
+    return {"int": 5, "true": True, "false": False, "negzero": -0.0, "inf": float("inf"), "nan": float("nan"), "np.float64": np.float64(5.0),
+            "np.int64": np.int64(3), "numeric-string": "5.0", "empty-string": "", "list": [1.0], "bigint": 10 ** 20, "tuple": (1.0, 2.0)}
 
 
 def data_kinds_for(prog) -> List[str]:
@@ -129,6 +136,21 @@ def _worker(chunk):
                             st["viol"].append(("prefix-differential-mismatch",
                                                f"prefix {list(prog[:i])} gives {r.status} {r.data} {r.ctx}, reference state after node {i-1} is {exp}",
                                                {"prog": list(prog[:i]), "data": dkind, "ctx": ctx}))
+        # unusual-but-legal VALUES at every context key the program reads (short programs): the documented semantics do not depend
+        # on what kind of object a parameter value is
+        if len(prog) <= 2:
+            keys = [k for k in gen.read_keys(prog) if k != "path"][:3]  # (a sink's path is handed to open(): an int there is a file descriptor)
+            full = {k: gen.KEY_VALUES.get(k, 0.0625) for k in keys}
+            dkv = data_kinds_for(prog)[-1] if len(prog) > 2 else {"N": "none", "F": "float", "C": "coll"}[
+                gen.SYMBOLS[prog[0]].get("in", interp.INPUT_KIND.get(gen.SYMBOLS[prog[0]]["kind"], "F"))]
+            for k in keys:
+                for vname, v in value_menu().items():
+                    ctx = {**full, k: v}
+                    ref, real, bad = run_case(prog, dkv, ctx, pipe, scratch)
+                    st["exec"] += 1
+                    if bad:
+                        st["viol"].append((bad[0] + "|unusual-value", f"context key {k} = {vname}: " + bad[1],
+                                           {"prog": list(prog), "data": dkv, "ctx": {kk: vv for kk, vv in full.items() if kk != k}, "menu": [k, vname]}))
         # a second Pipeline built from the SAME in-memory node definitions behaves like the first
         try:
             from semantiva.pipeline import Pipeline as _P
@@ -237,6 +259,11 @@ def check(tier: str, seed: int) -> Result:
 def replay(case) -> List[Violation]:
     harness.quiet()
     scratch = harness.enter_scratch()
+    if case.get("menu"):
+        k, vname = case["menu"]
+        ctx = {**case["ctx"], k: value_menu()[vname]}
+        ref, real, bad = run_case(tuple(case["prog"]), case["data"], ctx, None, scratch)
+        return [Violation(bad[0] + "|unusual-value", bad[1], case)] if bad else []
     if case.get("second"):
         from semantiva.pipeline import Pipeline as _P
 
